@@ -228,6 +228,34 @@ func gen(g *zv.Gen) {
 			g.Emitf("c26 keyssuite %d %d %s %s %s", v, s.ID, zv.Hex(r.Bytes(48)), zv.Hex(r.Bytes(32)), zv.Hex(r.Bytes(32)))
 		}
 	}
+	// the suite lookup itself: every id of both tables, their neighbours, TLS 1.3 ids, random ids
+	idset := map[uint16]bool{0: true, 0xffff: true, 0x1301: true, 0x1302: true, 0x1303: true}
+	for _, s := range append(tls.ZVSuites(), tls.ZVSuitesAdvertised()...) {
+		idset[s.ID], idset[s.ID+1], idset[s.ID-1] = true, true, true
+	}
+	for k := g.N(100, 2000); k > 0; k-- {
+		idset[uint16(r.Intn(65536))] = true
+	}
+	var ids []int
+	for id := range idset {
+		ids = append(ids, int(id))
+	}
+	sort.Ints(ids)
+	for _, id := range ids {
+		g.Emitf("c26 suitebyid %d", id)
+		var have []string
+		for k := r.Intn(5); k > 0; k-- {
+			have = append(have, fmt.Sprint(suites[r.Intn(len(suites))].ID))
+		}
+		if r.Chance(60) {
+			have = append(have, fmt.Sprint(id))
+		}
+		hv := "-"
+		if len(have) > 0 {
+			hv = strings.Join(have, ",")
+		}
+		g.Emitf("c26 mutual %s %d", hv, id)
+	}
 	n = g.N(300, 8000)
 	for i := 0; i < n; i++ {
 		s := suites13[r.Intn(len(suites13))]
